@@ -98,6 +98,13 @@ def atom_facts(cond, truth):
         if p:
             out.add(("T:cas:" if t else "F:cas:") + p)
         return out
+    if k == "call" and e.get("fp") and e.get("args") and e.get("recv") is None and not e.get("op") \
+            and e.get("ty") in ("bool", "_Bool"):
+        paths = [X.path(a) for a in e["args"]]
+        paths = [p for p in paths if p]
+        out.add("%s:%s(%s)#%s" % ("TA" if t else "FA", e.get("qname"), ", ".join(X.show(a) for a in e["args"]),
+                                  ";".join(paths)))
+        return out
     if k == "call" and e.get("name") == "holds_alternative" and e.get("args"):
         p = X.path(e["args"][0])
         if p and t:
@@ -147,6 +154,12 @@ def _apply_kills(facts, dead):
         return facts
     out = set()
     for f in facts:
+        if f.startswith("TA:") or f.startswith("FA:"):
+            ps = f.rsplit("#", 1)[1].split(";") if "#" in f else []
+            if any(p and any(p == d or p.startswith(d + ".") or d.startswith(p + ".") for d in dead) for p in ps):
+                continue
+            out.add(f)
+            continue
         if f.startswith("T:") or f.startswith("F:") or ":" not in f:
             out.add(f)
             continue
